@@ -34,7 +34,18 @@ from usb_protocol.emitters.descriptors.standard import get_string_descriptor
 
 W = 18
 
-EXPLANATION = ""
+EXPLANATION = (
+    "Unbounded inductive proofs (1-induction, abstraction map per FSM state / per generator) of the per-packet contract of "
+    "GetDescriptorHandlerBlock, GetDescriptorHandlerDistributed and GetDescriptorHandlerMux(Block+Distributed) against the "
+    "DeviceDescriptorCollection object, plus the start_position/PID advance of StandardRequestHandler; enumerated "
+    "collections x max packet sizes.  ROM layout (generate_rom_content) is covered because the real ROM contents are in the "
+    "netlist and the reference bytes come from the collection.  On the unchanged tree three genuine defects make obligations "
+    "fail (each with a witness replayed on the simulator; fixes in proposed_fixes/C09_*.diff, all obligations pass with "
+    "C09_all.diff): (1) the distributed handler never sends the ZLP: start_position == descriptor length is truncated/clamped by "
+    "the generator and the descriptor (or its last byte) is sent again; (2) the multiplexer's stall latches are only cleared "
+    "by the next start, and a stale latch combines with the other handler's same-cycle stall into a STALL for an existing "
+    "descriptor; (3) StandardRequestHandler builds both sub-collections with automatic_language_descriptor=True, so with "
+    "runtime descriptors both handlers answer GET_DESCRIPTOR(STRING,0) and the stream is corrupted.")
 ASSUMPTIONS = [
     "request fields (value, length, start_position) are held stable from start until the response (packet/ZLP/stall) ends",
     "no start strobe while a response is in progress (one IN token at a time)",
@@ -54,6 +65,13 @@ def lookup(idx, table, width, default=0):
     return e
 
 
+def multiple(x, k):
+    """x is a multiple of k (k a power of two: all USB max packet sizes are)"""
+    sh = k.bit_length() - 1
+    assert 1 << sh == k and sh > 0
+    return z3.Extract(sh - 1, 0, x) == 0
+
+
 def umin(a, b):
     return z3.If(z3.ULE(a, b), a, b)
 
@@ -65,7 +83,10 @@ def reg(ts, name):
 
 
 def keys_of(coll):
-    return {((int(t) << 8) | int(i)): bytes(raw) for t, i, raw in coll}
+    """(type<<8 | index) -> descriptor bytes.  A runtime descriptor is a callable returning a stream generator; its
+    reference bytes are the constant that generator was built from."""
+    return {((int(t) << 8) | int(i)): (bytes(raw) if isinstance(raw, (bytes, bytearray)) else bytes(raw()._data))
+            for t, i, raw in coll}
 
 
 PORTS = lambda d: {"i_value": d.value, "i_length": d.length, "i_start": d.start, "i_start_position": d.start_position,
@@ -76,7 +97,7 @@ PORTS = lambda d: {"i_value": d.value, "i_length": d.length, "i_start": d.start,
 class PacketSpec:
     """Ghosts, requires and ensures shared by the three handler units (see module docstring)."""
 
-    def __init__(self, c, I, O, keys, maxpkt, k_data, k_stall, parent=None, tag=""):
+    def __init__(self, c, I, O, keys, maxpkt, k_data, k_stall, parent=None, tag="", settle=0):
         """parent/tag: the contract of a sub-handler at its instance inside GetDescriptorHandlerMux.  It observes the
         instance's own tx/stall signals, shares the parent's latched request, adds no requires (its environment is the
         mux's, related by the invariant `sub busy => mux busy`), and its ensures are lemmas named <tag>..."""
@@ -101,10 +122,7 @@ class PacketSpec:
         self.valid, self.first, self.last, self.stall = valid, first, last, stall
         v_in, l_in, p_in = I["i_value"], zx(I["i_length"], W), zx(I["i_start_position"], W)
         # the request being served: the latched one while busy, the one on the inputs in the start cycle
-        if parent:
-            v, l, p = parent.v, parent.l, parent.p
-        else:
-            v, l, p = z3.If(self.isbusy, gv, v_in), z3.If(self.isbusy, gl, l_in), z3.If(self.isbusy, gp, p_in)
+        v, l, p = z3.If(self.isbusy, gv, v_in), z3.If(self.isbusy, gl, l_in), z3.If(self.isbusy, gp, p_in)
         self.v, self.l, self.p = v, l, p
         self.exists = z3.Or(*[v == k for k in keys]) if keys else z3.BoolVal(False)
         self.LEN = lookup(v, {k: len(b) for k, b in keys.items()}, W)
@@ -120,7 +138,6 @@ class PacketSpec:
         c.set_next(age, z3.If(self.start_accept, bvc(1, 3),
                               z3.If(z3.And(self.isbusy, z3.Not(valid), z3.ULT(age, 7)), age + 1, age)))
         if parent:
-            c.inv(tag + "busy_implies_mux_busy", z3.Implies(self.isbusy, parent.isbusy))
             self._ensures(c, ens, O, k_data, k_stall, covers=False)
             return
         c.set_next(gv, z3.If(self.start_accept, v_in, gv))
@@ -128,16 +145,25 @@ class PacketSpec:
         c.set_next(gp, z3.If(self.start_accept, p_in, gp))
 
         # ---- environment
-        c.require("request_stable_while_busy", z3.Implies(self.isbusy, z3.And(v_in == gv, l_in == gl, p_in == gp)),
+        # `settle` (mux only): the request must also stay put, and no new start may come, for `settle` cycles after a
+        # start even if the response is already over (a sub-handler that does not own the descriptor needs up to two more
+        # cycles to reach its stall); tokens are never that close together.
+        inflight = self.isbusy
+        if settle:
+            since = self.since = c.ghost("cycles_since_start", 3, init=settle)
+            c.set_next(since, z3.If(self.start_accept, bvc(1, 3), z3.If(z3.ULT(since, settle), since + 1, since)))
+            c.inv("since_bounded", z3.And(z3.ULE(since, settle), z3.Implies(self.isbusy, z3.Or(since == age, z3.UGE(since, 2)))))
+            inflight = self.inflight = z3.Or(self.isbusy, z3.ULT(since, settle))
+        c.require("request_stable_while_busy", z3.Implies(inflight, z3.And(v_in == gv, l_in == gl, p_in == gp)),
                   why="the control request handler holds setup.value/length and start_position while a packet is being generated")
-        c.require("no_start_while_busy", z3.Implies(self.isbusy, z3.Not(start)),
+        c.require("no_start_while_busy", z3.Implies(inflight, z3.Not(start)),
                   why="data_requested is a one-cycle strobe per IN token; the previous response has ended before the next token")
-        legal = z3.And(z3.URem(p_in, bvc(maxpkt, W)) == 0,
+        legal = z3.And(multiple(p_in, maxpkt),
                        z3.Implies(self.exists, z3.Or(z3.ULT(p_in, T), z3.And(p_in == T, z3.ULT(T, l_in)))))
         c.require("legal_continuation_offset", z3.Implies(self.start_accept, legal),
                   why="statement: 'read in max-packet-size pieces' by a host that stops after a short packet or after wLength bytes")
         # well-formedness of the latched request (follows from the requires; part of the invariant)
-        legal_g = z3.And(z3.URem(gp, bvc(maxpkt, W)) == 0, z3.ULT(gl, 1 << 16), z3.ULT(gp, 1 << 11),
+        legal_g = z3.And(multiple(gp, maxpkt), z3.ULT(gl, 1 << 16), z3.ULT(gp, 1 << 11),
                          z3.Implies(self.exists, z3.Or(z3.ULT(gp, T), z3.And(gp == T, z3.ULT(T, gl)))))
         c.inv("latched_request_is_legal", z3.Implies(self.isbusy, legal_g))
         self._ensures(c, c.ensure, O, k_data, k_stall, covers=True)
@@ -181,6 +207,7 @@ class PacketSpec:
         c.cover("data_packet_completes", z3.And(data, last, ready))
         c.cover("stall", stall)
         c.cover("stall_on_offer_wait", z3.And(data, z3.Not(ready), cnt != 0))
+        c.timeout_s = max(c.timeout_s, 240)       # the cover BMC unrolls every generator; allow for a loaded machine
 
     def _data(self, v, pos):
         e = bvc(0, 8)
@@ -193,7 +220,7 @@ class PacketSpec:
 
 
 # ------------------------------------------------------------------------------------------------ Block (ROM) handler
-def block_invariants(c, ts, s, d, prefix=""):
+def block_invariants(c, ts, s, d, prefix="", tag=""):
     """Abstraction map of GetDescriptorHandlerBlock: FSM state / registers / ROM read register <-> request + cnt + age."""
     keys = s.keys
     rom, max_len, max_type, index_map = d.generate_rom_content()       # real code, executed for this configuration
@@ -211,31 +238,29 @@ def block_invariants(c, ts, s, d, prefix=""):
         by_type.setdefault(k >> 8, []).append(k & 0xff)
     rank = {k: sorted(by_type[k >> 8]).index(k & 0xff) for k in keys}
     entry_word = {k: rom[((rom[k >> 8] & 0xffff) >> 2) + rank[k]] for k in keys}      # (length << 16) | data address
-    for k, b in keys.items():
-        assert entry_word[k] >> 16 == len(b)
     type_word = lambda t: lookup(t, {tt: rom[tt] for tt in range(max_type + 1)}, 32)
     didx_spec = lookup(gv, rank, 8, default=0xFF) if index_map else bits(gv, 7, 0)
     Lspec = umin(bvc(s.maxpkt, W), gl - gp)            # the registered `length` (bytes allowed in this packet)
     word_of = lambda wi: s.per_key(gv, None, 32) if False else _word_table(keys, gv, wi)
     st = fsm.is_
     busy = s.isbusy
-    c.inv(prefix + "fsm_legal", fsm.legal())
-    c.inv(prefix + "idle_iff_not_busy", st("IDLE") == z3.Not(busy))
-    c.inv(prefix + "length_register", z3.Implies(z3.And(busy, z3.ULE(gp, gl)), zx(lreg, W) == Lspec))
-    c.inv(prefix + "start_state", z3.Implies(st("START"), age == 1))
+    c.inv(tag + "fsm_legal", fsm.legal())
+    c.inv(tag + "idle_iff_not_busy", st("IDLE") == z3.Not(busy))
+    c.inv(tag + "length_register", z3.Implies(z3.And(busy, z3.ULE(gp, gl)), zx(lreg, W) == Lspec))
+    c.inv(tag + "start_state", z3.Implies(st("START"), age == 1))
     lt = [age == 2, z3.ULE(zx(typ, 16), max_type), rp == type_word(typ), pos == bits(gp, pos.size() - 1, 0)]
     if index_map:
         lt.append(R("descr_idx") == didx_spec)
-    c.inv(prefix + "lookup_type_state", z3.Implies(st("LOOKUP_TYPE"), z3.And(*lt)))
-    c.inv(prefix + "lookup_descriptor_state", z3.Implies(st("LOOKUP_DESCRIPTOR"), z3.And(
+    c.inv(tag + "lookup_type_state", z3.Implies(st("LOOKUP_TYPE"), z3.And(*lt)))
+    c.inv(tag + "lookup_descriptor_state", z3.Implies(st("LOOKUP_DESCRIPTOR"), z3.And(
         age == 3, s.exists, rp == lookup(gv, entry_word, 32), pos == bits(gp, pos.size() - 1, 0), Lspec != 0)))
     p_now = gp + cnt
-    c.inv(prefix + "send_descriptor_state", z3.Implies(st("SEND_DESCRIPTOR"), z3.And(
+    c.inv(tag + "send_descriptor_state", z3.Implies(st("SEND_DESCRIPTOR"), z3.And(
         age == 4, s.exists, z3.ULT(gp, s.T), z3.ULT(cnt, s.n), zx(pos, W) == p_now, zx(sent, W) == cnt,
         zx(dlen, W) == s.LEN, zx(base, 16) == z3.LShR(bits(lookup(gv, entry_word, 32), 15, 0), 2),
         rp == _word_table(keys, gv, z3.LShR(p_now, 2)))))
-    c.inv(prefix + "send_zlp_state", z3.Implies(st("SEND_ZLP"), z3.And(s.exists, s.zlp, z3.Or(age == 3, age == 4), cnt == 0)))
-    c.inv(prefix + "count_zero_before_data", z3.Implies(z3.And(busy, z3.Not(st("SEND_DESCRIPTOR"))), z3.And(cnt == 0, sent == 0)))
+    c.inv(tag + "send_zlp_state", z3.Implies(st("SEND_ZLP"), z3.And(s.exists, s.zlp, z3.Or(age == 3, age == 4), cnt == 0)))
+    c.inv(tag + "count_zero_before_data", z3.Implies(z3.And(busy, z3.Not(st("SEND_DESCRIPTOR"))), z3.And(cnt == 0, sent == 0)))
 
 
 def _word_table(keys, v, wi):
@@ -274,28 +299,28 @@ def gen_names(coll):
     return out
 
 
-def distributed_invariants(c, ts, s, coll, prefix=""):
+def distributed_invariants(c, ts, s, coll, prefix="", tag=""):
     """Per generator g (descriptor key kg): its start register, FSM, position, byte counter, latched max_length and ROM read
     register as functions of the observation ghosts."""
     names = gen_names(coll)
     gv, gp, gl, cnt, age = s.gv, s.gp, s.gl, s.cnt, s.age
     busy = s.isbusy
     Lspec = umin(bvc(s.maxpkt, W), gl - gp)
-    c.inv(prefix + "age_bound", z3.Implies(busy, z3.And(z3.UGE(age, 1), z3.ULE(age, 2), s.exists)))
+    c.inv(tag + "age_bound", z3.Implies(busy, z3.And(z3.UGE(age, 1), z3.ULE(age, 2), s.exists)))
     # A tree with the ZLP fix (proposed_fixes/C09_distributed_handler_zlp.diff) has a one-cycle `send_zlp` register;
     # without it no state of the unit corresponds to "answering with a ZLP" and the zlp case is simply not provable.
     has_zlp = ts.has(prefix + "send_zlp")
     zcase = z3.And(busy, s.zlp) if has_zlp else z3.BoolVal(False)
     if has_zlp:
-        c.inv(prefix + "send_zlp_register", (ts.sig(prefix + "send_zlp") == 1) == zcase)
-        c.inv(prefix + "zlp_is_answered_at_once", z3.Implies(zcase, age == 1))
-    c.inv(prefix + "count_zero_before_data", z3.Implies(z3.And(busy, age == 1), cnt == 0))
+        c.inv(tag + "send_zlp_register", (ts.sig(prefix + "send_zlp") == 1) == zcase)
+        c.inv(tag + "zlp_is_answered_at_once", z3.Implies(zcase, age == 1))
+    c.inv(tag + "count_zero_before_data", z3.Implies(z3.And(busy, age == 1), cnt == 0))
     for k, b in s.keys.items():
         g = prefix + names[k] + "."
         fsm = ts.fsm(g + "fsm_state")
         sreg = ts.sig(g + "start")
         mine = z3.And(busy, gv == k)
-        nm = prefix + f"gen_{k:04x}_"
+        nm = tag + f"gen_{k:04x}_"
         c.inv(nm + "fsm_legal", fsm.legal())
         c.inv(nm + "start_register", (sreg == 1) == z3.And(mine, age == 1, z3.Not(zcase)))
         c.inv(nm + "streaming_iff_serving", fsm.is_("STREAMING") == z3.And(mine, age == 2))
@@ -321,6 +346,159 @@ def make_distributed(coll_fn, maxpkt):
     return contract
 
 
+# ------------------------------------------------------------------------------------------------ Mux(Block + Distributed)
+def mux_of_two(coll_a_fn, coll_b_fn):
+    def build(maxpkt):
+        ca, cb = coll_a_fn(), coll_b_fn()
+        mux = GetDescriptorHandlerMux()
+        ha = GetDescriptorHandlerBlock(ca, max_packet_length=maxpkt)
+        hb = GetDescriptorHandlerDistributed(cb, max_packet_length=maxpkt)
+        mux.add_descriptor_handler(ha); mux.add_descriptor_handler(hb)
+        return mux, ha, hb, ca, cb
+    return build
+
+
+def mux_of_request_handler(coll_fn):
+    """the multiplexer exactly as StandardRequestHandler.get_descriptor_handler_submodule() builds it when the collection
+    holds runtime descriptors (fixed descriptors -> Block handler, runtime descriptors -> Distributed handler)"""
+    def build(maxpkt):
+        from luna.gateware.usb.request.standard import StandardRequestHandler
+        h = StandardRequestHandler(coll_fn(), max_packet_size=maxpkt, avoid_blockram=False)
+        mux = h.get_descriptor_handler_submodule()
+        assert isinstance(mux, GetDescriptorHandlerMux)
+        ha, hb = mux._handlers
+        return mux, ha, hb, ha._descriptors, hb._descriptors
+    return build
+
+
+def make_mux(build, maxpkt):
+    """GetDescriptorHandlerMux over a Block handler (collection A) and a Distributed handler (collection B).  The two
+    handlers must hold disjoint descriptor sets (if they do not, both answer and the proof fails -- as it should)."""
+    def contract(c):
+        mux, ha, hb, ca, cb = build(maxpkt)
+        ka, kb = keys_of(ca), keys_of(cb)
+        ts = c.unit(mux, PORTS(mux))
+        I, O = ts.inputs, ts.outputs
+        s = PacketSpec(c, I, O, {**ka, **kb}, maxpkt, k_data=4, k_stall=2, settle=3)
+        sub_out = lambda h: {"o_valid": ts.of(h.tx.valid), "o_first": ts.of(h.tx.first), "o_last": ts.of(h.tx.last),
+                             "o_payload": ts.of(h.tx.payload), "o_stall": ts.of(h.stall)}
+        pa = [p for p in ts.paths if p.endswith(".descriptor_length")][0].rsplit(".", 1)[0] + "."
+        pb = [p for p in ts.paths if "USBDescriptorStreamGenerator" in p][0].split(".", 1)[0] + "."
+        sa = PacketSpec(c, I, sub_out(ha), ka, maxpkt, 4, 2, parent=s, tag="block.")
+        sb = PacketSpec(c, I, sub_out(hb), kb, maxpkt, 2, 0, parent=s, tag="dist.")
+        block_invariants(c, ts, sa, ha, prefix=pa, tag="block.")
+        distributed_invariants(c, ts, sb, cb, prefix=pb, tag="dist.")
+        la, lb = reg(ts, "stall_latch_0") == 1, reg(ts, "stall_latch_1") == 1
+        busy = s.isbusy
+        exa, exb = sa.exists, sb.exists                 # over the request each sub-handler is (or would be) serving
+        gexa = z3.Or(*[s.gv == k for k in ka])           # over the latched request
+        gexb = z3.Or(*[s.gv == k for k in kb])
+        since = s.since
+        # --- at most one (stale) latch is left over from the last transaction
+        c.inv("never_both_latched", z3.Not(z3.And(la, lb)))
+        # --- sub-handlers only work on the mux's latest request
+        c.inv("block_busy_own", z3.Implies(z3.And(sa.isbusy, gexa), z3.And(busy, sa.cnt == s.cnt, sa.age == s.age, z3.Not(la), lb)))
+        c.inv("block_busy_foreign", z3.Implies(z3.And(sa.isbusy, z3.Not(gexa)), z3.And(
+            sa.age == since, z3.ULE(since, 2), sa.cnt == 0, z3.Not(la), lb == z3.Not(gexb), z3.Implies(z3.Not(gexb), busy))))
+        c.inv("dist_busy_own", z3.Implies(sb.isbusy, z3.And(busy, gexb, sb.cnt == s.cnt, sb.age == s.age, z3.Not(lb))))
+        # --- and the mux-level transaction is carried by the owner
+        c.inv("owner_block", z3.Implies(z3.And(busy, gexa), sa.isbusy))
+        c.inv("owner_dist", z3.Implies(z3.And(busy, gexb), z3.And(sb.isbusy, z3.Or(sa.isbusy, la))))
+        c.inv("owner_nobody", z3.Implies(z3.And(busy, z3.Not(gexa), z3.Not(gexb)), z3.And(sa.isbusy, s.cnt == 0, s.age == since)))
+        c.cover("served_by_block", z3.And(s.take, sa.exists))
+        c.cover("served_by_distributed", z3.And(s.take, sb.exists))
+        c.cover("block_request_after_distributed_request", z3.And(s.start_accept, la, exa))   # stale latch of the block handler
+        c.cover_depth = 14
+    return contract
+
+
+def coll_runtime():
+    ds = DeviceDescriptorCollection(automatic_language_descriptor=False)
+    ds.add_descriptor(get_string_descriptor("runtime"), index=7)                 # 16 bytes
+    ds.add_descriptor(b'\x05\x22\x01\x02\x03', index=0, descriptor_type=0x22)
+    return ds
+
+
+# ------------------------------------------------------------------------------------------------ start_position advance
+def make_request_handler(coll_fn, maxpkt):
+    """StandardRequestHandler (request/standard.py): during a GET_DESCRIPTOR request the descriptor handler is started once
+    per data_requested with the setup's value/length, and start_position = max_packet_size * (number of data packets of this
+    request that were ACKed).  With the per-packet contract this gives the concatenation clause of the statement.
+    Histories are restricted to standard GET_DESCRIPTOR setups (the interplay with other requests is C07/C10)."""
+    def contract(c):
+        from luna.gateware.usb.request.standard import StandardRequestHandler
+        from usb_protocol.types import USBStandardRequests, USBRequestType
+        d = StandardRequestHandler(coll_fn(), max_packet_size=maxpkt, avoid_blockram=False)
+        i = d.interface
+        made = []                        # capture the handler instance the real elaborate() creates (to name its ports)
+        factory = d.get_descriptor_handler_submodule
+        d.get_descriptor_handler_submodule = lambda: (made.append(factory()), made[-1])[1]
+        ts = c.unit(d, {"s_received": i.setup.received, "s_type": i.setup.type, "s_request": i.setup.request,
+                        "s_value": i.setup.value, "s_length": i.setup.length,
+                        "i_data_requested": i.data_requested, "i_status_requested": i.status_requested,
+                        "i_ack": i.handshakes_in.ack, "i_tx_ready": i.tx.ready,
+                        "o_tx_valid": i.tx.valid, "o_tx_first": i.tx.first, "o_tx_last": i.tx.last, "o_tx_payload": i.tx.payload,
+                        "o_stall": i.handshakes_out.stall, "o_ack": i.handshakes_out.ack, "o_pid": i.tx_data_pid})
+        I, O = ts.inputs, ts.outputs
+        hd = made[-1]
+        hsig = {"start": hd.start, "start_position": hd.start_position, "value": hd.value, "length": hd.length, "stall": hd.stall,
+                "valid": hd.tx.valid, "first": hd.tx.first, "last": hd.tx.last, "payload": hd.tx.payload, "ready": hd.tx.ready}
+        h = lambda n: ts.of(hsig[n])
+        received, dreq, sreq, ack = (I[n] == 1 for n in ("s_received", "i_data_requested", "i_status_requested", "i_ack"))
+        stall = O["o_stall"] == 1
+        gd = c.ghost("in_get_descriptor", 1, init=0)          # a GET_DESCRIPTOR request is open (setup seen, no status/stall yet)
+        epos = c.ghost("acked_bytes", 11, init=0)             # max_packet * number of ACKed data packets of this request
+        exp = c.ghost("packet_awaiting_ack", 1, init=0)       # a data packet of this request was started and not yet ACKed
+        pid = c.ghost("expected_pid", 1, init=1)
+        isgd = gd == 1
+        closes = z3.Or(sreq, stall)
+        advance = z3.And(isgd, ack, exp == 1)
+        c.set_next(gd, z3.If(isgd, z3.If(closes, bvc(0, 1), bvc(1, 1)), z3.If(received, bvc(1, 1), bvc(0, 1))))
+        c.set_next(epos, z3.If(z3.Not(isgd), bvc(0, 11), z3.If(advance, epos + maxpkt, epos)))
+        c.set_next(exp, z3.If(z3.Not(isgd), bvc(0, 1), z3.If(stall, bvc(0, 1), z3.If(advance, bvc(0, 1), z3.If(dreq, bvc(1, 1), exp)))))
+        c.set_next(pid, z3.If(z3.Not(isgd), bvc(1, 1), z3.If(advance, ~pid, pid)))
+        c.require("only_get_descriptor_setups", z3.And(I["s_type"] == int(USBRequestType.STANDARD),
+                                                       I["s_request"] == int(USBStandardRequests.GET_DESCRIPTOR)),
+                  why="this contract covers GET_DESCRIPTOR handling only; other requests and their interleavings are C07/C10")
+        c.require("no_setup_inside_open_request", z3.Implies(isgd, z3.Not(received)),
+                  why="a new SETUP during an unfinished request is the subject of C07")
+        c.require("ack_only_for_a_started_packet", z3.Implies(z3.And(isgd, ack), exp == 1),
+                  why="an ACK handshake is only seen after a data packet of this request was started (no foreign/stray ACKs). "
+                      "NOTE (robustness finding, outside the statement's quantifier): `expecting_ack` is not cleared when a "
+                      "request closes, so after a request whose last ACK was lost a stray ACK at the start of the next "
+                      "GET_DESCRIPTOR would advance start_position before any data was sent")
+        fsm = ts.fsm("fsm_state")
+        c.inv("fsm_legal", fsm.legal())
+        c.inv("state_is_get_descriptor_iff_open", fsm.is_("GET_DESCRIPTOR") == isgd)
+        c.inv("idle_otherwise", z3.Implies(z3.Not(isgd), fsm.is_("IDLE")))
+        c.inv("start_position_register", z3.Implies(isgd, reg(ts, "start_position") == epos))
+        # (the register may be stale-high from an earlier request that closed without its last ACK; harmless under the require)
+        c.inv("expecting_ack_register", z3.Implies(z3.And(isgd, exp == 1), reg(ts, "expecting_ack") == 1))
+        c.inv("pid_register", z3.Implies(isgd, reg(ts, "tx_data_pid") == pid))
+        c.ensure("start_position_is_acked_packets_times_max_packet", z3.Implies(isgd, h("start_position") == epos),
+                 clause="read in max-packet-size pieces: start_position is 0 for the first packet of a request and advances by "
+                        "exactly max_packet_size for each ACKed data packet (and only then)")
+        c.ensure("handler_started_once_per_data_request", (h("start") == 1) == z3.And(isgd, dreq),
+                 clause="each IN token of the data stage starts exactly one packet of the descriptor handler")
+        c.ensure("request_fields_wired", z3.And(h("value") == I["s_value"], h("length") == I["s_length"]),
+                 clause="any request (type, index, wLength): the handler sees the setup packet's wValue and wLength")
+        c.ensure("handler_output_forwarded", z3.Implies(isgd, z3.And(
+            O["o_tx_valid"] == h("valid"), O["o_tx_first"] == h("first"), O["o_tx_last"] == h("last"),
+            O["o_tx_payload"] == h("payload"), O["o_stall"] == h("stall"), h("ready") == I["i_tx_ready"])),
+                 clause="the data stage is the handler's tx stream; a missing descriptor's stall becomes the STALL handshake")
+        c.ensure("silent_outside_get_descriptor", z3.Implies(z3.Not(isgd), z3.And(O["o_tx_valid"] == 0, O["o_stall"] == 0)),
+                 clause="(frame) nothing is sent for a request that is not open")
+        c.ensure("data_pid_toggles_per_acked_packet", z3.Implies(isgd, O["o_pid"] == pid),
+                 clause="(data toggle) DATA1 first, toggled once per ACKed packet")
+        c.cover("second_packet_started", z3.And(isgd, dreq, epos == maxpkt))
+        c.cover("third_packet_started", z3.And(isgd, dreq, epos == 2 * maxpkt))
+        c.cover("closed_by_stall", z3.And(isgd, stall))
+        c.cover("closed_by_status", z3.And(isgd, sreq, epos != 0))
+        c.cover_depth = 20
+        c.timeout_s = max(c.timeout_s, 240)
+    return contract
+
+
 # ------------------------------------------------------------------------------------------------ collections
 def coll_small():
     """device(18) + configuration(25) + strings 0..3 (4,10,10,16 bytes) + sparse string 0xfe (30) + HID type 0x21 (9)."""
@@ -339,9 +517,88 @@ def coll_small():
     return ds
 
 
+def coll_with_runtime():
+    """device + strings (fixed) and one runtime descriptor (type 0x22) supplied as a stream-generator factory"""
+    from luna.gateware.usb.usb2.descriptor import USBDescriptorStreamGenerator
+    ds = DeviceDescriptorCollection()
+    with ds.DeviceDescriptor() as d:
+        d.idVendor = 0x1234; d.idProduct = 0x4567; d.iProduct = "Prod"; d.bNumConfigurations = 1
+    ds.add_descriptor(lambda: USBDescriptorStreamGenerator(b"\x06\x22\xaa\xbb\xcc\xdd"), index=0, descriptor_type=0x22)
+    return ds
+
+
+def coll_consecutive():
+    """like coll_small without the sparse string: all indices consecutive, so the Block handler uses the request's index
+    directly (no index map)."""
+    ds = DeviceDescriptorCollection()
+    with ds.DeviceDescriptor() as d:
+        d.bcdUSB = 2.00; d.idVendor = 0x1234; d.idProduct = 0x4567
+        d.iManufacturer = "Manu"; d.iProduct = "Prod"; d.iSerialNumber = "0123456"
+        d.bNumConfigurations = 1
+    with ds.ConfigurationDescriptor() as cfg:
+        with cfg.InterfaceDescriptor() as i:
+            i.bInterfaceNumber = 0
+            with i.EndpointDescriptor() as e:
+                e.bEndpointAddress = 0x81; e.wMaxPacketSize = 64
+    ds.add_descriptor(b'\x09\x21\x01\x01\x00\x01\x22\x00\x32')
+    return ds
+
+
+def coll_big():
+    """device + a 130-byte configuration + strings incl. exactly 64 and 128 bytes + sparse string indices + BOS (type 15)
+    + a type-0x22 report descriptor of 32 bytes."""
+    ds = DeviceDescriptorCollection()
+    with ds.DeviceDescriptor() as d:
+        d.bcdUSB = 2.10; d.idVendor = 0x1d50; d.idProduct = 0x615b
+        d.iManufacturer = "M" * 31            # 2 + 62 = 64 bytes
+        d.iProduct = "P" * 63                 # 2 + 126 = 128 bytes
+        d.iSerialNumber = "serial-number-0123456789"
+        d.bNumConfigurations = 1
+    with ds.ConfigurationDescriptor() as cfg:
+        for n in range(6):
+            with cfg.InterfaceDescriptor() as i:
+                i.bInterfaceNumber = n
+                for ep in (0x81 + n, 0x01 + n):
+                    with i.EndpointDescriptor() as e:
+                        e.bEndpointAddress = ep; e.wMaxPacketSize = 512
+    ds.add_descriptor(get_string_descriptor("sparse"), index=0x40)
+    ds.add_descriptor(get_string_descriptor("also sparse"), index=0xee)
+    ds.add_descriptor(bytes([5, 15, 12, 0, 1]) + bytes([7, 16, 2, 2, 0, 0, 0]), index=0, descriptor_type=15)
+    ds.add_descriptor(bytes(range(32)), index=0, descriptor_type=0x22)
+    return ds
+
+
+def coll_minimal():
+    """nothing but the automatically added language descriptor (4 bytes)"""
+    return DeviceDescriptorCollection()
+
+
 def contracts(tier):
+    only = os.environ.get("HWV_C09_ONLY")              # development aid: restrict to units whose name contains this
+    for unit, cfg, fn in _contracts(tier):
+        if not only or only in unit:
+            yield (unit, cfg, fn)
+
+
+def _contracts(tier):
     quick = tier == "quick"
-    for mp in ((8, 64) if quick else (8, 16, 32, 64)):
+    for mp in ((8,) if quick else (8, 16, 32, 64)):
         yield ("GetDescriptorHandlerBlock", f"small_maxpkt{mp}", make_block(coll_small, mp))
-    for mp in ((8, 64) if quick else (8, 16, 32, 64)):
+    for mp in ((64,) if quick else (8, 16, 32, 64)):
+        yield ("GetDescriptorHandlerBlock", f"consecutive_maxpkt{mp}", make_block(coll_consecutive, mp))
+    if not quick:
+        for mp in (8, 16, 32, 64):
+            yield ("GetDescriptorHandlerBlock", f"big_maxpkt{mp}", make_block(coll_big, mp))
+            yield ("GetDescriptorHandlerDistributed", f"big_maxpkt{mp}", make_distributed(coll_big, mp))
+        yield ("GetDescriptorHandlerBlock", "minimal_maxpkt64", make_block(coll_minimal, 64))
+        yield ("GetDescriptorHandlerDistributed", "minimal_maxpkt8", make_distributed(coll_minimal, 8))
+        yield ("GetDescriptorHandlerMux", "block_big+distributed_runtime_maxpkt64", make_mux(mux_of_two(coll_big, coll_runtime), 64))
+    for mp in ((8,) if quick else (8, 16, 32, 64)):
+        yield ("StandardRequestHandler", f"get_descriptor_small_maxpkt{mp}", make_request_handler(coll_small, mp))
+    for mp in ((8,) if quick else (8, 16, 32, 64)):
+        yield ("GetDescriptorHandlerMux", f"block_small+distributed_runtime_maxpkt{mp}", make_mux(mux_of_two(coll_small, coll_runtime), mp))
+    for mp in ((64,) if quick else (8, 64)):
+        yield ("GetDescriptorHandlerMux", f"as_built_by_StandardRequestHandler_runtime_maxpkt{mp}",
+               make_mux(mux_of_request_handler(coll_with_runtime), mp))
+    for mp in ((8,) if quick else (8, 16, 32, 64)):
         yield ("GetDescriptorHandlerDistributed", f"small_maxpkt{mp}", make_distributed(coll_small, mp))
